@@ -1014,6 +1014,15 @@ class SpectrumAnalyzer:
         return results_block
 
 
+def _ragged_object_array(items) -> np.ndarray:
+    """1-D object array with one entry per item (np.array(list_of_equal_length
+    arrays, dtype=object) would silently become 2-D)."""
+    out = np.empty(len(items), dtype=object)
+    for idx, item in enumerate(items):
+        out[idx] = item
+    return out
+
+
 class SpectrumResult:
     """
     An immutable container for the results of a spectral analysis.
@@ -1072,7 +1081,7 @@ class SpectrumResult:
         for key, value in list(self._data.items()):
             if isinstance(value, list):
                 if key == "D":
-                    self._data[key] = np.array(value, dtype=object)
+                    self._data[key] = _ragged_object_array(value)
                 else:
                     self._data[key] = np.asarray(value)
 
@@ -1108,7 +1117,7 @@ class SpectrumResult:
             for d in self._data["D"]:
                 arr = np.asarray(d, dtype=np.int64)
                 D_list.append(arr)
-            self._data["D"] = np.array(D_list, dtype=object)
+            self._data["D"] = _ragged_object_array(D_list)
 
         # Convenience: number of frequency bins
         self.nf = int(self._data.get("f", np.array([])).shape[0])
